@@ -128,7 +128,35 @@ for _cd in list(_REG.get("C02", [])):
     if _cd.name in ("RecordTensor.select[tensor,many times per element]", "RecordTensor.select/insert[default offset]") and not any(x.name == _cd.name for x in _REG.get(P, [])):
         contract(P, _cd.name, list(_cd.targets), min_obligations=_cd.min_obligations)(_cd.fn)
 
+
+@contract(P, "synapse.delay@setter[histories follow the NEW maximum delay]", [("inferno/neural/mixins.py", "DelayedMixin.delay@setter"), ("inferno/neural/base.py", "InfernoSynapse.delay@setter")], min_obligations=3)
+def delay_setter(c):
+    """a connection's supported maximum delay may be changed after construction through synapse.delay: afterwards every
+    history of the synapse spans exactly the NEW delay (the size a synapse constructed with that delay has), the reported
+    delay is the new one, and the step time is untouched"""
+    from . import c14_config as c14
+    from pyvc import repo as _repo
+
+    cls = c.choice("synapse", ["DeltaCurrent", "DeltaPlusCurrent", "SingleExponentialCurrent", "DoubleExponentialCurrent"])
+    file, kw = c14.SYN[cls]
+    dt, d0, d1 = c.real("dt"), c.real("delay_at_construction"), c.real("new_delay")
+    c.require(dt > 0, d0 >= 0, d1 >= 0)
+    cv = c.interp.classv(_repo.load_module(file).classes[cls])
+    A = c.call(cv, (3,), dt, delay=d0, batch_size=2, inplace=False, **kw)
+    c.setattr(A, "delay", d1)
+    B = c.call(cv, (3,), dt, delay=d1, batch_size=2, inplace=False, **kw)
+    c.ensure("reports_the_new_delay", c14.same(c.getattr(A, "delay"), d1))
+    c.ensure("step_time_untouched", c14.same(c.getattr(A, "dt"), dt))
+    fa, fb = c14.cfg_fields(A), c14.cfg_fields(B)
+    dur = {k: v for k, v in fa.items() if k.endswith("_duration")}
+    c.ensure("has_delayed_histories", len(dur) >= 1 and sorted(fa) == sorted(fb))
+    c.ensure("every_history_spans_the_new_delay", z3.And(*[num(v) == d1.z for v in dur.values()]) if dur else False)
+    conj = [c14.same(fa[k], fb[k]) for k in fa if k in fb]
+    c.ensure("histories_sized_like_a_synapse_constructed_with_the_new_delay", z3.And(*[x if not isinstance(x, bool) else z3.BoolVal(x) for x in conj]) if conj else False)
+    c.canary("canary_keeps_the_old_delay", z3.And(d0.z != d1.z, *[num(v) == d0.z for v in dur.values()]) if dur else z3.BoolVal(False))
+
 MUTANTS = [
+    dict(file="inferno/neural/mixins.py", func="DelayedMixin.delay@setter", old="                getattr(self, cstr).duration = value", new="                getattr(self, cstr).duration = self.__delay", contracts=["synapse.delay@setter[histories follow the NEW maximum delay]"], name="seed C06g: histories resized to the OLD maximum delay"),
     dict(file="inferno/neural/synapses/expcurrent.py", func="DoubleExponentialCurrent.current_at", old="bounded_selector = selector.clamp(min=0, max=self.spike_.duration)", new="bounded_selector = selector.clamp(min=0, max=self.spike_.dt)", contracts=["DoubleExponentialCurrent.current_at"], name="seed C06f: delays of the double-exponential synapse clamped to one step"),
     dict(file=c05.CONV, func="Conv2D.selector", old='"f c h w -> 1 (c h w) 1 f"', new='"f c h w -> 1 (c w h) 1 f"', contracts=["Conv2D.layouts"], name="seed C06d: delay selector flattens the kernel as (c w h)"),
     dict(file=INF, func="RecordTensor.reset", old="        if fill is not None:", new="        if fill:", contracts=["DeltaCurrent.forward", "SingleExponentialCurrent.forward"], name="seed C06b: clearing with fill 0 leaves the delay history in place"),
